@@ -1,6 +1,7 @@
 package fingerprint
 
 import (
+	"encoding/binary"
 	"fmt"
 	"io"
 	"os"
@@ -93,7 +94,14 @@ func (c *ChecksumChecker) checksum(t *ast.Task) (string, error) {
 		return "", err
 	}
 
+	// h sums the name and the content of every source, back to back; lens sums
+	// the length of every name and of every content, in a fixed width. The
+	// lengths say where each name and each content ends in what h has seen, so
+	// two different lists of (name, content) differ in what h or in what lens
+	// gets: moving bytes between a name and the content next to it (file "ab"
+	// holding "c" against file "a" holding "bc") changes the checksum.
 	h := xxh3.New()
+	lens := xxh3.New()
 	buf := make([]byte, 128*1024)
 	for _, f := range sources {
 		// also sum the filename (relative to the task's directory), so checksum
@@ -102,21 +110,24 @@ func (c *ChecksumChecker) checksum(t *ast.Task) (string, error) {
 		if err != nil {
 			name = f
 		}
-		if _, err := io.CopyBuffer(h, strings.NewReader(filepath.ToSlash(name)), buf); err != nil {
+		name = filepath.ToSlash(name)
+		if _, err := io.CopyBuffer(h, strings.NewReader(name), buf); err != nil {
 			return "", err
 		}
 		f, err := os.Open(f)
 		if err != nil {
 			return "", err
 		}
-		if _, err = io.CopyBuffer(h, f, buf); err != nil {
+		size, err := io.CopyBuffer(h, f, buf)
+		if err != nil {
 			return "", err
 		}
 		f.Close()
+		_ = binary.Write(lens, binary.BigEndian, [2]uint64{uint64(len(name)), uint64(size)})
 	}
 
 	hash := h.Sum128()
-	return fmt.Sprintf("%x%x", hash.Hi, hash.Lo), nil
+	return fmt.Sprintf("%x%x%016x", hash.Hi, hash.Lo, lens.Sum64()), nil
 }
 
 func (checker *ChecksumChecker) checksumFilePath(t *ast.Task) string {
